@@ -23,7 +23,7 @@ func init() {
 			return 2400
 		},
 		Rule: "case = one generated tree x several tip subsets (random, whole clades, all-but-one child of a polytomy, tips at the root, " +
-			"cherries, one side of the root; remove or keep; with absent names), library and (every 8th case) the gotree prune command; " +
+			"cherries, one side of the root; remove or keep; with absent names), library (trees not indexed / name index only / fully indexed before pruning: look-ups by name, and for fully indexed trees the index monitor on what RemoveTips recomputes) and (every 8th case) the gotree prune command with tips as arguments or in tip files of every accepted layout (one per line, comma lines, one line longer than 4096 bytes, no final newline, empty lines), on single trees and on files of several trees; " +
 			"non-trivial = tree has an inner branch and at least one subset removed >= 1 tip while an inner branch survived; distinct by (tree, subsets)",
 		Assumptions: []string{
 			"always >= 3 tips left; start trees have no single-child inner nodes (quantifier)",
